@@ -246,3 +246,13 @@ MUTANTS.update({
     ('space-event-only-when-empty', [(CL, "    if (self.factory.queueFull.called and queueSize < SEND_QUEUE_LOW_WATERMARK):", "    if (self.factory.queueFull.called and queueSize < SEND_QUEUE_LOW_WATERMARK and queueSize != 1):")]),
   ],
 })
+
+MUTANTS['C07'] += [
+  ('hard-max-double', [(CL, "    SEND_QUEUE_HARD_MAX = settings.MAX_QUEUE_SIZE * settings.MAX_QUEUE_SIZE_HARD_PCT", "    SEND_QUEUE_HARD_MAX = settings.MAX_QUEUE_SIZE * settings.MAX_QUEUE_SIZE_HARD_PCT * 2")]),
+  ('timer-handle-never-cleared', [(CL, "    if self.deferSendPending and self.deferSendPending.active():\n      return", "    if self.deferSendPending is not None:\n      return"),
+                                  (CL, "  def sendQueued(self):\n    if self.connectedProtocol:\n      self.connectedProtocol.sendQueued()", "  def sendQueued(self):\n    if not self.connectedProtocol:\n      return\n    self.deferSendPending = None\n    self.connectedProtocol.sendQueued()")]),
+]
+MUTANTS['C09'] += [
+  ('low-watermark-pct-ignored', [(CL, "SEND_QUEUE_LOW_WATERMARK = settings.MAX_QUEUE_SIZE * settings.QUEUE_LOW_WATERMARK_PCT", "SEND_QUEUE_LOW_WATERMARK = settings.MAX_QUEUE_SIZE * 0.1")]),
+  ('cache-watermark-80', [('lib/carbon/conf.py', "settings.CACHE_SIZE_LOW_WATERMARK = settings.MAX_CACHE_SIZE * 0.95", "settings.CACHE_SIZE_LOW_WATERMARK = settings.MAX_CACHE_SIZE * 0.5")]),
+]
